@@ -36,6 +36,24 @@ CLAIMED = {
             "Both commit guards dominate every merge of a received commit and precede any state change; the authorisation and whitelist "
             "decision tables equal the spec; proposals are queued / auto-committed only on the named arms; sender-side admin test "
             "dominates commit builders. Value-level correctness of the admin set is not decided.", "DESIGN.md §4 C05"),
+    "C09": ("schema-level SQL analysis (sqlite3 parser on the migrations, EXPLAIN write sets, ON DELETE CASCADE closure, column coverage, "
+            "WHERE scoping) + MIR field coverage of the memory snapshot",
+            "For every statement of snapshot/restore/release/list/prune: cascade closure of deletes covered by the snapshot, column lists = "
+            "schema, scoped to (group, name), write sets never touch messages/records/welcomes/keys, retake replaces; memory restore touches "
+            "only the 8 group-scoped maps through group-id filters. Byte equality of restored rows is not decided.", "DESIGN.md §4 C09"),
+    "C10": ("sibling cross-check: enum<->string tables by symbolic evaluation, SQL WHERE conjuncts vs MIR comparison triples, GroupDataType "
+            "per StorageProvider method, upsert completeness, row-mapper coverage, table<->cache correspondence, ORDER BY vs comparator tables",
+            "The two backends agree structurally on selection predicates, state constants, data-type filing, sort orders, limits and upsert "
+            "semantics for every trait method. Observable equality on arbitrary sequences and LRU eviction are not decided.", "DESIGN.md §4 C10"),
+    "C12": ("SQL bracket analysis on MIR: success-dominance of every write by the opening statement, COMMIT/RELEASE on Ok returns, "
+            "ROLLBACK on error exits, single connection guard",
+            "Decides the 'in particular' clause only: snapshot creation, restore and relay replacement are each one transaction/savepoint "
+            "bracket on every path. Crash-recoverability of multi-statement API calls is not decided (stated in DESIGN).", "DESIGN.md §4 C12"),
+    "C18": ("decision-table enumeration of comparators / sort closures / pointer update with callee+closure inlining, ORDER BY extraction, "
+            "boolean-guard dominance (limit validation), overflow-assert and cast rules for pagination",
+            "Both comparators are lexicographic total orders equal to the SQL ORDER BY lists and to the memory sort closures; limit "
+            "validation dominates data access with equal bounds; pagination arithmetic cannot panic or wrap; pointer update decision "
+            "table. Pointer correctness after invalidation is not decided.", "DESIGN.md §4 C18"),
 }
 PENDING_REASON = "check under construction in this round (see DESIGN.md); not yet claimed"
 NA = {}
